@@ -391,8 +391,10 @@ class Ctx:
 
     # ---- proofs ----
     def check_proofs(self):
-        ok, out = lake_build()
         reg = load_registry()[self.prop]
+        # only this property's modules (and the driver): a proof obligation of another property that no longer
+        # checks must not take this one down with it
+        ok, out = lake_build(tuple(reg["modules"]) + ("driver",))
         self.obligations = len(reg["theorems"])
         if not ok:
             self.proof_ok = False
